@@ -94,6 +94,32 @@ CLAIMED = {
         note='trusted: z3, engine models (replayed per path), line attribution in vf/oracles; top-level '
              'requirements unmet at end of input, %import failures and unopenable resources are not asserted',
         ref='DESIGN.md section 7 C08'),
+    'C14': dict(
+        text='Differential: for concrete accepted texts with sections (depth up to 3) and symbolic override '
+             'specifiers (path components, key, value, and fully symbolic specifier strings) z3 shows on every '
+             'path that loading with overrides gives the same value tree - or rejection, a conversion error '
+             'where the edited text gives one - as loading the text edited by an independent editor that '
+             'implements the rule of the statement; specifiers without = or with an empty component are refused.',
+        note='trusted: z3, engine models (replayed per path), the editor in vf/harness/c14.py; values with '
+             'surrounding whitespace cannot be written as a text line and are excluded',
+        ref='DESIGN.md section 7 C14'),
+    'C15': dict(
+        text='Metamorphic: for the enumerated (original, rewritten) text pairs - symbolic whitespace for '
+             'indentation and trailing space, symbolic comment text, modelled upper/lower/swapcase of section '
+             'types, names, define names, references and case-insensitive keys, both empty-section forms, '
+             'reordered key lines - with shared symbolic tokens, z3 shows on every path that the real loader '
+             'yields equal value trees or rejects both; includes the shipped logger and mapping components.',
+        note='trusted: z3, engine models (replayed per path); the oracle is the real code on the other '
+             'spelling; rewrites are hand-composed, not sampled',
+        ref='DESIGN.md section 7 C15'),
+    'C17': dict(
+        text='For 1-2 fully symbolic lines and line templates with symbolic holes, z3 shows on every path on '
+             'which the schema-less loader accepts the text that str() of the result loads again to an equal '
+             'structure (keys and value lists, section types, names, order, nesting, imports) and serialises '
+             'to the identical text; %define and %include raise NotImplementedError.',
+        note='trusted: z3, engine models incl. f-string concatenation and sorted() on symbolic keys '
+             '(replayed per path); acceptance of the first load is C03',
+        ref='DESIGN.md section 7 C17'),
 }
 
 NOT_YET = 'harness not built yet in this revision (see DESIGN.md section 7 for the plan)'
